@@ -73,7 +73,7 @@ def check(case, rec):
         via = 'func'
     # references (un-delayed original function, fresh options)
     try:
-        refs = [gc.reference(X[i], fs, fr, gc.materialise(per_row[i]), return_samples=rs) for i in range(rows)]
+        refs = [gc.isolated(gc.reference, X[i], fs, fr, gc.materialise(per_row[i]), return_samples=rs) for i in range(rows)]
     except Exception as exc:  # noqa
         raise Discard('a row is not analysable alone (%s)' % type(exc).__name__)
     if mode == 'list':
